@@ -208,6 +208,12 @@ def run_sizes(case, acc, order):
                 it = list(r.iter_chunks())
                 rpb = list(r.part_bounds)
                 ns = r.n_samples
+                # a spike selector is built on the reader's chunk grid (as the model does), with a last
+                # spike after the end of the recording: the reader's grid is an input, not a scratch pad
+                from phylib.io.array import SpikeSelector
+                SpikeSelector(get_spikes_per_cluster=lambda c: np.array([0, 1]),
+                              spike_times=np.array([0, n + 3]), chunk_bounds=r.chunk_bounds, n_chunks_kept=2)
+                after = (list(r.chunk_bounds), list(r.iter_chunks()), r.n_samples)
                 layouts.close_reader(r)
             except (Exception, core.CaseTimeout) as e:
                 acc.step(nontrivial, 'reader:exception')
@@ -223,6 +229,10 @@ def run_sizes(case, acc, order):
         if bad:
             viol(acc, 'flat-reader', 'iter_chunks', bad, case, op, 'non-empty intervals tile [0,n)',
                  [(int(a), int(b_)) for a, b_ in it], order)
+        if [int(x) for x in after[0]] != [int(x) for x in cb] or after[2] != ns or \
+                [(int(a), int(b_)) for a, b_ in after[1]] != [(int(a), int(b_)) for a, b_ in it]:
+            viol(acc, 'flat-reader', 'chunk_bounds', 'changed-by-a-selector-built-on-them', case, op,
+                 [int(x) for x in cb], [int(x) for x in after[0]], order)
         if len(sizes) == 1:
             # the reader without a file (synthetic data): the same promises about its chunk grid
             try:
